@@ -107,6 +107,22 @@ func TestVerifC05(t *testing.T) {
 					}
 					e.answerTrack(true)
 				}}
+		case 9, 10:
+			// OUTSIDE THE MODEL (CNoModel, oracle only): a client subscription combining EmitPresence with a
+			// map client-presence channel (MapClientPresenceChannel): explicit unsubscribe (9) or close (10)
+			// must remove the node-level presence entry as well
+			unsub := i == 9
+			return c04Plan{Name: "presence+map-presence/end", NCh: 1, NoModel: true, MapPres: true, Finish: c05Finish,
+				Script: func(e *c04Eng, r *rand.Rand) {
+					c04Connect(e)
+					e.spawn(c04Op{Kind: "subcli", Ch: 0, Opts: c04Opts{Pres: true}})
+					if !e.client.IsSubscribed(e.chs[0]) {
+						e.stuck = "subscription with presence + map presence did not complete"
+					}
+					if unsub {
+						e.spawn(c04Op{Kind: "unsubcli", Ch: 0})
+					}
+				}}
 		case 7:
 			// keyed tracking, the ordinary order: tracked keys are registered and removed by close
 			return c04Plan{Name: "keyed-track/then-close", NCh: 1, NoModel: true, Keyed: true, Finish: c05Finish,
